@@ -19,8 +19,9 @@ RULE = (
     "lattice (duplicates, per-coordinate ties, dominated points; float arithmetic is exact "
     "there), from full-precision floats, and with -inf coordinates / +inf reference "
     "coordinates; reference points weakly dominated by the set (equality allowed); penalties "
-    "with NaN/<=0/>0 and n_below for the rank; mutually non-dominated sets with duplicates and "
-    "every subset size for HSSP. Oracles: exact dominated volume by inclusion-exclusion in "
+    "with NaN/<=0/>0 and n_below for the rank; for HSSP arbitrary and mutually non-dominated sets "
+    "with duplicates, every subset size, plus tens of thousands of tiny 3-D/4-D lattice instances "
+    "where exact volume ties are frequent. Oracles: exact dominated volume by inclusion-exclusion in "
     "fractions.Fraction (cross-checked by coordinate-compressed cell counting for small cases), "
     "repeated O(n^2) Pareto peeling, exhaustive best subset. Non-trivial = the set has a "
     "duplicate, a per-coordinate tie, a dominated point or an infinity; distinct = distinct "
@@ -30,7 +31,7 @@ ASSUMPTIONS = [
     "no NaN objective values; reference point >= every point in every coordinate (the documented precondition)",
     "reference points are finite: optuna's convention for a non-finite reference point (always inf, pinned by tests/hypervolume_tests/test_wfg.py::test_wfg_with_inf even when the point touches it) is not a measure-theoretic statement; -inf objective values are generated",
     "assume_pareto=True is only passed for mutually non-dominated sets (duplicates allowed), as every caller does",
-    "HSSP inputs are mutually non-dominated (callers pass one non-domination rank) with finite values",
+    "HSSP inputs have finite values; half of them are mutually non-dominated (what callers pass), half arbitrary (dominated points and duplicates included)",
     "float point sets: 1e-9 relative tolerance; lattice point sets: exact equality",
 ]
 
@@ -338,12 +339,43 @@ def run_rank(case: dict[str, Any], ctx: Ctx) -> None:
 
 @st.composite
 def case_hssp(draw: Any) -> dict[str, Any]:
-    kind = draw(st.sampled_from(["lattice", "lattice", "float"]))
+    kind = draw(st.sampled_from(["lattice", "lattice", "float", "sliver", "sliver"]))
     d = draw(st.integers(2, 5))
     n0 = draw(st.integers(1, 16))
-    co = st.integers(-4, 4).map(float) if kind == "lattice" else st.one_of(st.floats(-10, 10, allow_nan=False), st.integers(-3, 3).map(float))
+    if kind == "sliver":
+        # anchors on a coarse grid plus near-copies that are better by a sliver in one
+        # coordinate and much worse in another: exact ties between a stale upper bound and a
+        # fresh contribution, and candidates whose real contribution is tiny
+        d = draw(st.integers(3, 4))
+        base = st.sampled_from([0.0, 8.0, 9.0, 36.0, 64.0, 72.0])
+        anchors = draw(st.lists(st.lists(base, min_size=d, max_size=d), min_size=2, max_size=5))
+        raw = [list(a) for a in anchors]
+        for a in anchors:
+            for _ in range(draw(st.integers(0, 2))):
+                b = list(a)
+                i, j = draw(st.integers(0, d - 1)), draw(st.integers(0, d - 1))
+                b[i] = b[i] - draw(st.sampled_from([0.125, 0.25, 1.0]))
+                b[j] = b[j] + draw(st.sampled_from([1.0, 9.0, 8.0, 0.125]))
+                raw.append(b)
+        front = [p for p in raw if not any(dominates(q, p) for q in raw)]
+        seen: list[list[float]] = []
+        for p in front:
+            if p not in seen or draw(st.integers(0, 3)) == 0:
+                seen.append(p)
+        front = seen[:10]
+        order = draw(st.permutations(list(range(len(front)))))
+        front = [front[i] for i in order]
+        idx = draw(st.lists(st.integers(0, 60), min_size=len(front), max_size=len(front), unique=True))
+        k = draw(st.integers(1, len(front)))
+        ref = [max(p[c] for p in front) + draw(st.sampled_from([1.0, 1.0, 0.125, 8.0])) for c in range(d)]
+        return {"kind": kind, "points": front, "indices": idx, "k": k, "ref": ref}
+    # floats: no magnitudes below 1e-6 (products of such edges underflow in double precision and
+    # the greedy choice is then arbitrary without being wrong in any meaningful sense)
+    co = st.integers(-4, 4).map(float) if kind == "lattice" else st.one_of(
+        st.floats(-10, 10, allow_nan=False).map(lambda x: 0.0 if abs(x) < 1e-6 else x), st.integers(-3, 3).map(float), st.integers(-80, 80).map(lambda i: i / 8)
+    )
     raw = draw(st.lists(st.lists(co, min_size=d, max_size=d), min_size=n0, max_size=n0))
-    front = [p for p in raw if not any(dominates(q, p) for q in raw)]
+    front = [p for p in raw if not any(dominates(q, p) for q in raw)] if draw(st.booleans()) else list(raw)
     # duplicates inside the front
     if draw(st.integers(0, 2)) == 0 and front:
         front.append(list(front[draw(st.integers(0, len(front) - 1))]))
@@ -355,7 +387,7 @@ def case_hssp(draw: Any) -> dict[str, Any]:
     ref = []
     for c in range(d):
         m = max(p[c] for p in front)
-        ref.append(m + (draw(st.sampled_from([0.0, 1.0, 1.0, 2.0])) if kind == "lattice" else draw(st.one_of(st.just(0.0), st.floats(0, 5, allow_nan=False)))))
+        ref.append(m + (draw(st.sampled_from([0.0, 1.0, 1.0, 2.0])) if kind == "lattice" else draw(st.one_of(st.just(0.0), st.floats(1e-3, 5, allow_nan=False), st.sampled_from([1.0, 0.125])))))
     return {"kind": kind, "points": front, "indices": idx, "k": k, "ref": ref}
 
 
@@ -378,14 +410,34 @@ def run_hssp(case: dict[str, Any], ctx: Ctx) -> None:
     if Fraction(hv_sel) * Fraction(10**9) < Fraction(int((1 - 1 / math.e) * 10**9)) * Fraction(best) * (1 - Fraction(1, 10**9)):
         raise Violation(
             "hssp-below-approximation-bound",
-            f"{case}: selected {got} hv={float(hv_sel)} best={float(best)} ratio={float(hv_sel)/float(best) if best else 1}",
+            f"{case}: selected {got} hv={float(hv_sel)} best={float(best)} ratio={float(Fraction(hv_sel) / Fraction(best)) if best else 1}",
             case,
         )
     ctx.event("greedy_is_optimal" if hv_sel == best else "greedy_suboptimal")
+
+
+@st.composite
+def case_hssp_small(draw: Any) -> dict[str, Any]:
+    """Many tiny 3-D/4-D lattice instances: exact ties between box volumes are frequent there,
+    which is what the lazily updated contributions of the greedy solver are sensitive to."""
+    d = draw(st.sampled_from([3, 3, 3, 4]))
+    hi = draw(st.sampled_from([4, 4, 6, 8]))
+    raw = draw(st.lists(st.lists(st.integers(0, hi).map(float), min_size=d, max_size=d), min_size=3, max_size=8))
+    # arbitrary sets: dominated points and duplicates stay in (the statement quantifies over
+    # them; the unchanged implementation meets the bound there too)
+    front = raw
+    if draw(st.booleans()):
+        front = [p for p in raw if not any(dominates(q, p) for q in raw)]
+        if len(front) < 3:
+            front = raw
+    k = draw(st.integers(1, len(front)))
+    ref = [float(hi + 1)] * d
+    return {"kind": "lattice", "points": front, "indices": list(range(len(front))), "k": k, "ref": ref}
 
 
 CHECKS = [
     Check("hv", lambda tier: case_hv(), run_hv, {"quick": 4000, "thorough": 250000}, budget_s={"quick": 120, "thorough": 1500}),
     Check("rank", lambda tier: case_rank(), run_rank, {"quick": 4000, "thorough": 250000}, budget_s={"quick": 60, "thorough": 900}),
     Check("hssp", lambda tier: case_hssp(), run_hssp, {"quick": 2500, "thorough": 120000}, budget_s={"quick": 100, "thorough": 1500}),
+    Check("hssp_small", lambda tier: case_hssp_small(), run_hssp, {"quick": 48000, "thorough": 1500000}, budget_s={"quick": 100, "thorough": 1500}),
 ]
